@@ -6,6 +6,7 @@ Driver handler for C04 (stateful): a C01 resource plus the open backpressured su
 ```
 newc|newv <C01 config> [eqv=<equal|sameA>]             -> ok
 sub name=<k> [rm=<mask>] [uo]                          -> seed=[…]
+subid name=<k> id=<id> [rm=<mask>] [uo]                -> seed=[…]      (PullID; deliveries end with $ once the stream has ended)
 unsub name=<k>                                         -> ok
 upd|add|del|vset … (as C01)                            -> val=… err=… | k1=[delivered…] k2=[…]
 ```
@@ -22,6 +23,8 @@ structure Sub where
   name : String
   opts : SubOpts Mask
   last : Option Msg   -- Value.Pull's `last`
+  pid : Option String := none   -- PullID: the (intercepted) id
+  ended : Bool := false         -- PullID: the stream has ended
 
 inductive Res
   | none
@@ -33,16 +36,30 @@ structure DrvState where
   eqv : Eqv Msg := none
   subs : List Sub := []
 
-def showVDeliv (d : VDeliv Msg) : String := s!"{showMsg d.value}|{d.time}|{showFlags d.seed d.lastSeed}"
 
 def parseSubOpts? (kv : KV) : Option (SubOpts Mask) := do
   let rm ← optKey kv "rm" parseMask?
   pure { readMask := rm, updatesOnly := kvHas kv "uo" }
 
+def showVDeliv (d : VDeliv Msg) : String := s!"{showMsg d.value}|{d.time}|{showFlags d.seed d.lastSeed}"
+
+/-- one subscription's share of the bus events of one collection write -/
+def deliverSubC (cfg : FCfg) (eqv : Eqv Msg) (evs : List (CEvent Msg)) (sb : Sub) : String × Sub :=
+  let got := evs.filterMap (collForward cfg eqv sb.opts)
+  match sb.pid with
+  | none => (s!"{sb.name}={showList (got.map showCEvent)}", sb)
+  | some id =>
+    if sb.ended then (s!"{sb.name}=[]$", sb)
+    else
+      let r := pullIDLoop id got
+      (s!"{sb.name}={showList (r.1.map showVDeliv)}" ++ (if r.2 then "$" else ""), { sb with ended := r.2 })
+
 /-- deliver the bus events of one collection write to every subscription -/
 def deliverC (cfg : FCfg) (eqv : Eqv Msg) (subs : List Sub) (evs : List (CEvent Msg)) : String :=
-  " ".intercalate (subs.map (fun sb =>
-    s!"{sb.name}={showList ((evs.filterMap (collForward cfg eqv sb.opts)).map showCEvent)}"))
+  " ".intercalate (subs.map (fun sb => (deliverSubC cfg eqv evs sb).1))
+
+def deliverCSubs (cfg : FCfg) (eqv : Eqv Msg) (subs : List Sub) (evs : List (CEvent Msg)) : List Sub :=
+  subs.map (fun sb => (deliverSubC cfg eqv evs sb).2)
 
 /-- deliver the bus events of one value write; returns the answer and the subscriptions with their
 updated `last` -/
@@ -91,16 +108,16 @@ def handleRace (st : DrvState) (isA : Bool) (kv : KV) : Option (DrvState × Stri
     let newSub : Sub := { name := name, opts := so, last := none }
     let head := s!"val={showOptMsg o.val} err={showErr o.err} | "
     if subFirst then
-      pure ({ st with res := .coll cfg s', subs := st.subs ++ [newSub] },
+      pure ({ st with res := .coll cfg s', subs := deliverCSubs cfg st.eqv (st.subs ++ [newSub]) o.events },
             s!"{flagName}=true seed={showList ((collSeed cfg s so).map showCEvent)} " ++ head ++
             deliverC cfg st.eqv (st.subs ++ [newSub]) o.events)
     else if subBetween then
-      pure ({ st with res := .coll cfg s', subs := st.subs ++ [newSub] },
+      pure ({ st with res := .coll cfg s', subs := deliverCSubs cfg st.eqv (st.subs ++ [newSub]) o.events },
             s!"{flagName}=true seed={showList ((collSeed cfg s' so).map showCEvent)} " ++ head ++
             deliverC cfg st.eqv (st.subs ++ [newSub]) o.events)
     else
       let old := deliverC cfg st.eqv st.subs o.events
-      pure ({ st with res := .coll cfg s', subs := st.subs ++ [newSub] },
+      pure ({ st with res := .coll cfg s', subs := deliverCSubs cfg st.eqv st.subs o.events ++ [newSub] },
             s!"{flagName}=false seed={showList ((collSeed cfg s' so).map showCEvent)} " ++ head ++
             (if st.subs.isEmpty then "" else old ++ " ") ++ s!"{name}=[]")
   | .val cfg s =>
@@ -150,6 +167,13 @@ def handleOpt (st : DrvState) (toks : List String) : Option (DrvState × String)
       let o ← parseSubOpts? kv
       pure ({ st with subs := st.subs ++ [{ name := name, opts := o, last := none }] },
             "seed=" ++ showList ((collSeed cfg s o).map showCEvent))
+    | "subid", .coll cfg s =>
+      let name ← kvGet kv "name"
+      let id ← kvGet kv "id"
+      let o ← parseSubOpts? kv
+      let r := pullIDLoop (icptId cfg id) (collSeed cfg s o)
+      pure ({ st with subs := st.subs ++ [{ name := name, opts := o, last := none, pid := some (icptId cfg id), ended := r.2 }] },
+            "seed=" ++ showList (r.1.map showVDeliv))
     | "sub", .val cfg s =>
       let name ← kvGet kv "name"
       let o ← parseSubOpts? kv
@@ -164,20 +188,20 @@ def handleOpt (st : DrvState) (toks : List String) : Option (DrvState × String)
       let msg ← (kvGet kv "msg").bind parseMsg?
       let wr ← parseWriteReq? kv
       let (o, s') := Coll.update cfg s id msg wr
-      pure ({ st with res := .coll cfg s' },
+      pure ({ st with res := .coll cfg s', subs := deliverCSubs cfg st.eqv st.subs o.events },
             s!"val={showOptMsg o.val} err={showErr o.err} | " ++ deliverC cfg st.eqv st.subs o.events)
     | "add", .coll cfg s =>
       let id ← kvGet kv "id"
       let msg ← (kvGet kv "msg").bind parseMsg?
       let wr ← parseWriteReq? kv
       let (o, s') := Coll.add cfg s id msg wr
-      pure ({ st with res := .coll cfg s' },
+      pure ({ st with res := .coll cfg s', subs := deliverCSubs cfg st.eqv st.subs o.events },
             s!"val={showOptMsg o.val} err={showErr o.err} | " ++ deliverC cfg st.eqv st.subs o.events)
     | "del", .coll cfg s =>
       let id ← kvGet kv "id"
       let wr ← parseWriteReq? kv
       let (o, s') := Coll.delete cfg s id wr
-      pure ({ st with res := .coll cfg s' },
+      pure ({ st with res := .coll cfg s', subs := deliverCSubs cfg st.eqv st.subs o.events },
             s!"val={showOptMsg o.val} err={showErr o.err} | " ++ deliverC cfg st.eqv st.subs o.events)
     | "vset", .val cfg s =>
       let msg ← (kvGet kv "msg").bind parseMsg?
